@@ -16,7 +16,10 @@ META = {
                  "over generated documents, all ordered format pairs, both supply modes at each hop",
     "claim": "Proved: for ALL documents xt's transcoder forwards exactly the reader's calls to the writer, so that xt(B->B) reproduces "
              "xt's B output byte for byte and xt(B->A)(xt(A->B)(x)) = xt(A->A)(x) for every codec B whose reader reads back what its "
-             "writer wrote to calls the writers cannot tell apart (stated as a premise of the theorem, not assumed as an axiom). The "
+             "writer wrote to calls the writers cannot tell apart (stated as a premise of the theorem, not assumed as an axiom). For "
+             "B = MessagePack the premise is discharged: on the model of rmp / rmp-serde (diffed against the real crates by the "
+             "MessagePack correspondence) MessagePack->MessagePack reproduces every stream of encodable values byte for byte, from "
+             "a slice and from a reader. The "
              "forwarding model is diffed against the real transcoder (hooks). The premise is third-party behaviour and is checked on "
              "the implementation itself, with no reference reader needed: for generated documents (common model plus each pair's "
              "extensions: nulls, non-string keys, binary, non-finite floats, 32-bit floats, TOML date-times), nesting to depth 64, "
@@ -140,6 +143,7 @@ def run(outcome, tier, seed):
     if outcome.hooks_available:
         st = shared.harness_corr(outcome, "transcode", "streaming transcoder / borrowed Value", tier, seed)
         outcome.extra["forwarding_correspondence"] = {"cases": st["cases"], "value_route_cases": st.get("value_cases", 0)}
+        shared.msgpack_correspondence(outcome, tier, seed, oracle=False)
     run_oracle(outcome, tier, seed)
 
 
